@@ -12,9 +12,9 @@ import GoBk.Proofs.Bip32Lemmas
 
   The store model has one OBJECT per `*ExtendedKey` the Go API hands out and a register file of
   references; the only operations that return the receiver itself are `Neuter` on a public key and
-  `DeriveChildFromPath("")`.  (The slice-level sharing that the Go code has below this level —
-  finding D9, `Neuter` sharing pubKey/chainCode/parentFP with its receiver, fixed in /repo — is
-  outside this model: see "not proved here" at the end.)
+  `DeriveChildFromPath("")`.  The slice-level sharing that the Go code has below this level
+  (finding D9: `Neuter` sharing pubKey/chainCode/parentFP with its receiver, fixed in /repo) is
+  treated in the last section: heap model `GoBk.XKeyHeap`, invariant `Inv`, refinement to this store.
 -/
 namespace GoBk.Props.C18
 open GoBk Bytes Bip32 XKeyStore
@@ -570,13 +570,102 @@ example : target st0 (.zero 0) = some 0 := rfl
 example (pr : Prims) (nets : List Net) :
     (step pr nets st0 (.zero 0)).map (fun s => s.objs[0]?) = some (some (Bip32.zero k0)) := rfl
 
+/-! ### the heap level: slices, sharing, and why the object view is sound
+
+`GoBk.Model.XKeyHeap` models the Go representation: byte arrays, slices `(array, offset, length)`
+into them, key records whose `key, pubKey, chainCode, parentFP, version` are slices, with the
+allocation/sharing pattern of extendedkey.go (see the header of that file).  `Heap.abs` reads every
+slice and yields the object store used above.  `Inv` (definition: `GoBk.Proofs.Bip32Lemmas`) says:
+network arrays intact; all slices in bounds; the slices `Zero` writes through lie outside the
+network arrays; writable slices of DIFFERENT records lie in different arrays; no version slice
+overlaps any writable slice; registers valid; a filled `pubKey` cache equals `pubKeyBytes`. -/
+
+open GoBk.XKeyHeap in
+/-- `Inv` holds initially: root from `NewMaster(seed, nets[n])` … -/
+theorem heap_inv_init_seed (pr : Prims) (nets : List Net) (seed : Bytes) (n : Nat) (net : Net)
+    (hn : nets[n]? = some net) :
+    ∃ h0, hinitSeed pr nets seed n = some h0 ∧ Inv nets h0 ∧
+      h0.abs = State.newObj {} (Bip32.newMaster pr seed net.hdPriv) :=
+  hinitSeed_spec pr nets seed n net hn
+
+open GoBk.XKeyHeap in
+/-- … or from `NewKeyFromString(s)` -/
+theorem heap_inv_init_str (pr : Prims) (nets : List Net) (s : Bytes) :
+    Inv nets (hinitStr pr nets s) ∧ (hinitStr pr nets s).abs = State.newObj {} (Bip32.fromString pr s) :=
+  hinitStr_spec pr nets s
+
+open GoBk.XKeyHeap in
+/-- **inv_step**: every operation preserves `Inv` -/
+theorem heap_inv_step (pr : Prims) (nets : List Net) (h h' : Heap) (op : Op) (hI : Inv nets h)
+    (hs : hstep pr nets h op = some h') : Inv nets h' := (hstep_refines pr hI op).2 h' hs
+
+open GoBk.XKeyHeap in
+/-- **refinement**: under `Inv`, a step of the heap model IS the step of the object store on the
+abstraction (same success/failure, same resulting store) -/
+theorem heap_refines_step (pr : Prims) (nets : List Net) (h : Heap) (op : Op) (hI : Inv nets h) :
+    (hstep pr nets h op).map Heap.abs = step pr nets h.abs op := (hstep_refines pr hI op).1
+
+open GoBk.XKeyHeap in
+/-- … and so for whole histories -/
+theorem heap_refines_run (pr : Prims) (nets : List Net) (h : Heap) (ops : List Op) (hI : Inv nets h) :
+    (hrun pr nets h ops).map Heap.abs = run pr nets h.abs ops ∧
+    ∀ h', hrun pr nets h ops = some h' → Inv nets h' := hrun_refines pr ops h hI
+
+open GoBk.XKeyHeap in
+/-- **obs_refines**: after any history from an initial heap, what the API shows of every key record
+(String, IsPrivate, Depth, ParentFingerprint, Address, ECPubKey, ECPrivKey) is what the object store
+shows of the corresponding object — so all the frame theorems above apply to the Go representation. -/
+theorem heap_obs_refines (pr : Prims) (nets : List Net) (h h' : Heap) (ops : List Op) (hI : Inv nets h)
+    (hr : hrun pr nets h ops = some h') (addrID : UInt8) :
+    ∃ st', run pr nets h.abs ops = some st' ∧ st'.regs = h'.regs ∧
+      ∀ (id : Nat) (k : HKey), h'.objs[id]? = some k →
+        (st'.objs[id]?).map (observe pr addrID) = some (observe pr addrID (h'.absKey k)) := by
+  have := (hrun_refines pr ops h hI).1
+  rw [hr] at this
+  refine ⟨h'.abs, this.symm, rfl, fun id k hk => ?_⟩
+  show ((h'.objs.map h'.absKey)[id]?).map _ = _
+  rw [Array.getElem?_map, hk]; rfl
+
+open GoBk.XKeyHeap in
+/-- what `Inv` gives directly: `Zero`/`SetNet` write only through the receiver's own slices, and
+those never overlap a slice of another record -/
+theorem heap_writable_disjoint (nets : List Net) (h : Heap) (hI : Inv nets h) (id1 id2 : Nat) (k1 k2 : HKey)
+    (h1 : h.objs[id1]? = some k1) (h2 : h.objs[id2]? = some k2) (hne : id1 ≠ id2) :
+    (∀ s1 ∈ k1.writable, ∀ s2 ∈ k2.writable, s1.disjoint s2) ∧
+    (∀ s2 ∈ k2.writable, k1.version.disjoint s2) :=
+  ⟨fun s1 hs1 s2 hs2 => disjoint_of_arr (hI.disj id1 id2 k1 k2 h1 h2 hne s1 hs1 s2 hs2),
+   fun s2 hs2 => hI.verdisj id1 id2 k1 k2 h1 h2 s2 hs2⟩
+
+open GoBk.XKeyHeap in
+/-- the record the ORIGINAL `Neuter` built: the receiver's own `pubKey`, `chainCode`, `parentFP` slices -/
+def sharedNeutered (k : HKey) (v : Slice) : HKey :=
+  { key := k.pubKey, pubKey := Slice.nil, chainCode := k.chainCode, parentFP := k.parentFP, version := v,
+    childNum := k.childNum, depth := k.depth, isPrivate := false }
+
+open GoBk.XKeyHeap in
+/-- **finding D9** (fixed in /repo): any such record breaks `Inv` — which is exactly why
+`parent.Zero()` wiped the neutered key (and vice versa). -/
+theorem shared_neuter_breaks_inv (nets : List Net) (h : Heap) (id : Nat) (k : HKey) (v : Slice)
+    (hk : h.objs[id]? = some k) (hcc : k.chainCode.len ≠ 0) :
+    ¬ Inv nets (h.pushKey (sharedNeutered k v)) := by
+  intro hI
+  have hlt : id < h.objs.size := by rcases Array.getElem?_eq_some_iff.1 hk with ⟨hlt, _⟩; exact hlt
+  have h1 : (h.objs.push (sharedNeutered k v))[id]? = some k := by
+    rw [Array.getElem?_push, if_neg (by omega)]; exact hk
+  have h2 : (h.objs.push (sharedNeutered k v))[h.objs.size]? = some (sharedNeutered k v) :=
+    Array.getElem?_push_size
+  rcases hI.disj id h.objs.size k _ h1 h2 (by omega) k.chainCode (by simp [HKey.writable])
+    k.chainCode (by simp [HKey.writable, sharedNeutered]) with e | e | e
+  · exact hcc e
+  · exact hcc e
+  · exact e rfl
+
 /-
-  Not proved here (stretch goal of the work package, not started): the heap-level model
-  `GoBk.Model.XKeyHeap` (arrays + slices, allocation/sharing exactly as in the Go code) with the
-  disjointness invariant `Inv` and its refinement to this object store.  The separation between
-  objects that the theorems above rely on is, at this level, built into the model
-  (`XKeyStore.State.objs` holds VALUES); it is tied to the Go code only by the differential
-  correspondence stream for C18 (finding D9 was found and fixed that way), not by proof.
+  Scope of the heap-level theorems: `GoBk.Model.XKeyHeap` is a hand-written model of the Go
+  allocation pattern (tied to the code by review and by the differential stream `xk.*`, which is
+  what detected D9); values are computed by the value-level model on the bytes the slices denote,
+  and `Inv.cache` is what justifies treating a filled `pubKey` cache as equal to recomputation.
+  Intermediate keys of multi-component paths are not recorded as objects (they are unreachable).
 -/
 
 end GoBk.Props.C18
@@ -604,3 +693,11 @@ end GoBk.Props.C18
 #print axioms GoBk.Props.C18.setNet_observe
 #print axioms GoBk.Props.C18.child_after_setNet
 #print axioms GoBk.Props.C18.child_version
+#print axioms GoBk.Props.C18.heap_inv_init_seed
+#print axioms GoBk.Props.C18.heap_inv_init_str
+#print axioms GoBk.Props.C18.heap_inv_step
+#print axioms GoBk.Props.C18.heap_refines_step
+#print axioms GoBk.Props.C18.heap_refines_run
+#print axioms GoBk.Props.C18.heap_obs_refines
+#print axioms GoBk.Props.C18.heap_writable_disjoint
+#print axioms GoBk.Props.C18.shared_neuter_breaks_inv
